@@ -369,7 +369,7 @@ CHECKS["C03"]["harnesses"].append(
      "what": "one document per validation rule of the specification (29 documents, each invalid only by that rule) x suggestions on/off x query cache x a suggestions-disabled executor having served a request before in the same process: rejected, nothing runs, nothing cached"})
 
 CHECKS["C05"]["harnesses"].append(
-    dict(_WS, harness="Harness_C05_streams", reach=["c05.streams"], race=True, sched_confirm=True,
+    dict(_WS, harness="Harness_C05_streams", reach=["c05.streams"], race=True, sched_confirm=True, native_retries=60,
          quick={"params": {"ticks": 1}, "sample_models": 10, "sample_every": 11}, thorough={"params": {"ticks": 2}, "workers": 14, "sample_models": 16, "sample_every": 211},
          what="SSE (keep-alive on) and multipart/mixed (aggregator ticker) serving 1..2 payloads with the request context cancelled while any payload is produced, timers ticking at any scheduling point: Do returns and no goroutine of the transport is left (leak + deadlock detection), race check"))
 
@@ -442,3 +442,9 @@ CHECKS["C16"]["harnesses"].append(
     {"probe": "core", "harness": "Harness_C16_configuredSchema", "setup": "Setup_C16_configuredSchema", "reach": ["c16.configured"], "workers": 4, "sched": "first",
      "configs_quick": ["single", "follow"], "configs_thorough": ["single", "follow", "funcsyn"], "quick": {"sample_models": 10},
      "what": "generated __schema / __type(name:) (literal and through a variable, aliased) on a server built with a configured schema that is a reduced view of the compiled-in one: both describe the configured schema and agree"})
+
+# client disconnect points (C12): the streaming transports with the request context cancelled while a payload is produced
+CHECKS["C12"]["harnesses"].append(
+    dict(_WS, harness="Harness_C05_streams", reach=["c05.streams"], race=True, sched_confirm=True, native_retries=60,
+         quick={"params": {"ticks": 1}, "sample_models": 10, "sample_every": 11}, thorough={"params": {"ticks": 2}, "workers": 14, "sample_models": 16, "sample_every": 211},
+         what="SSE (keep-alive on) and multipart/mixed serving 1..2 payloads with the client gone (request context cancelled) while any payload is produced: nothing writes to the response after the handler returned, no concurrent use of the writer, no goroutine left (shared with C05)"))
